@@ -20,7 +20,7 @@ def state_space_matrices(network: Network, c_values: dict[str, float] = {}, l_va
     def source_and_inductance_incidence_matrix(values: dict[str, float]) -> tuple[np.ndarray, np.ndarray]:
         voltage_source_mapping_all = voltage_source_mapper(network)
         source_mapping_all = map.default_source_mapper(network)
-        Qi = source_incidence_matrix(network=network)
+        Qi = source_incidence_matrix(network=network, node_mapper=node_mapper, source_mapper=current_source_mapper)
         Q = np.zeros((voltage_source_mapping_all.N, voltage_source_mapping_all.N), dtype=int)
         for i in voltage_source_mapping_all.values:
             Q[i][i] = 1
@@ -38,7 +38,7 @@ def state_space_matrices(network: Network, c_values: dict[str, float] = {}, l_va
         ))
 
     Delta = element_incidence_matrix(c_values)
-    A_tilde = nodal_analysis_coefficient_matrix(network).real
+    A_tilde = nodal_analysis_coefficient_matrix(network, node_mapper=node_mapper, source_mapper=voltage_source_mapper).real
     QS, QL = source_and_inductance_incidence_matrix(l_values)
     DQ = np.hstack((Delta.T, QL))
     Lambda = value_matrix(c_values, l_values)
